@@ -116,7 +116,16 @@ NESTED_MENU = [opx.MENU_STEPS[5], opx.MENU_STEPS[4], opx.MENU_STEPS[2]]
 REHASH_MENU = [opx.MENU_STATIC[0], opx.MENU_STEPS[0], opx.MENU_STEPS[2]]
 
 
+# a built output is changed by the user, noticed by a build that is restricted to another target
+# (so nothing is rebuilt), put back byte for byte, and then re-validated by an unrestricted build
+RESTORE_MENU = [opx.MENU_STATIC[0], opx.MENU_STEPS[0]]
+
+
 def machine_for(kind, check):
+    if kind == "restore":
+        m = opx.Machine(menu=RESTORE_MENU, check=check, targets_menu=((), ("c",)), exits=["ok"], allow_kill=False)
+        m.fs_menu = [("touch_out", "b"), ("restore_out", "b")]
+        return m
     if kind == "rehash":
         m = opx.Machine(menu=REHASH_MENU, check=check, targets_menu=((),), exits=["ok"], allow_kill=False)
         m.fs_menu = [("touch_out", "b"), ("change", "a")]
@@ -142,7 +151,7 @@ def jobs(tier, seed):
     full_depth, core_depth = (2, 4) if tier == "quick" else (3, 6)
     cycle_depth = 6 if tier == "quick" else 8
     kinds = [("full", full_depth), ("core", core_depth), ("cycle", cycle_depth), ("nested", cycle_depth),
-             ("rehash", 7 if tier == "quick" else 9)]
+             ("rehash", 7 if tier == "quick" else 9), ("restore", 9 if tier == "quick" else 10)]
     if tier == "thorough":
         # every pair of requests of the full menu as an alphabet of its own, searched deep
         import itertools
